@@ -47,7 +47,8 @@ def get_machine(kind, chunk):
     import contextlib
     key = (kind, chunk)
     if key not in _machines:
-        m = shellio.make_machine(kind, chunk=chunk)
+        # machines of two of the chunk sizes run on a channel that was configured by another machine before
+        m = shellio.make_machine(kind, chunk=chunk, inherited=chunk in (3, 64))
         cx = contextlib.ExitStack()
         cx.enter_context(m)
         _machines[key] = (m, cx)
